@@ -123,7 +123,113 @@ let cmd_scan () =
     done
   with End_of_file -> ()
 
+
+(* ------------------------------------------------------------------------------------ *)
+(* tree: directive forests, macro expansion, include handling *)
+
+let hex_of_ocaml (s : String.t) : String.t =
+  String.concat "" (List.map (fun c -> Printf.sprintf "%02x" (Char.code c)) (List.init (String.length s) (String.get s)))
+
+let hexc (s : Model.string) = hex_of_ocaml (ocaml_string s)
+
+let key_order = ["Path"; "SchemaNotation"; "Type"; "Name"; "Format"; "QueryExample"; "Version";
+                 "Title"; "ProtocolName"; "MethodName"; "TagName"; "OperationId"]
+
+let rloc_str (l : rloc) = Printf.sprintf "%s:%d" (hex_of_bytes l.rl_name) (int_of_z l.rl_line)
+
+let rec rdir_str (d : rdir) : String.t =
+  let named = List.map (fun (k, v) -> (ocaml_string k, v)) d.rd_named in
+  let nparts = List.filter_map (fun k ->
+      match List.assoc_opt k named with
+      | Some v when v <> [] -> Some (k ^ "=" ^ hex_of_bytes v)
+      | _ -> None) key_order in
+  let kname = match List.nth_opt dir_keywords (int_of_n d.rd_kind) with
+    | Some s -> ocaml_string s | None -> "?" in
+  Printf.sprintf "(%s %s %s:%d-%d {%s} [%s] a=%s b=%s x=%d t=[%s]%s)"
+    kname (hex_of_bytes d.rd_keyword) (hex_of_bytes d.rd_file) (int_of_z d.rd_begin) (int_of_z d.rd_end)
+    (String.concat "," nparts)
+    (String.concat "," (List.map hex_of_bytes d.rd_unnamed))
+    (hex_of_bytes d.rd_annot)
+    (match d.rd_body with
+     | Some ((f, b), e) -> Printf.sprintf "%s:%d-%d" (hex_of_bytes f) (int_of_z b) (int_of_z e)
+     | None -> "-")
+    (if d.rd_explicit then 1 else 0)
+    (String.concat "," (List.map rloc_str d.rd_trace))
+    (String.concat "" (List.map (fun c -> " " ^ rdir_str c) d.rd_children))
+
+let jstr s = "\"" ^ s ^ "\""
+let jlist l = "[" ^ String.concat "," l ^ "]"
+
+let rerr_json (e : rerr) : String.t =
+  Printf.sprintf "{\"fmt\":%s,\"args\":%s,\"suffix\":%s,\"file\":%s,\"index\":%d,\"line\":%d,\"col\":%d,\"trace\":%s}"
+    (jstr (hexc e.re_fmt))
+    (jlist (List.map (fun a -> jstr (hex_of_bytes a)) e.re_args))
+    (jlist (List.map (fun l -> jlist [jstr (hex_of_bytes l.rl_name); string_of_int (int_of_z l.rl_line)]) e.re_suffix))
+    (jstr (hex_of_bytes e.re_loc.rl_name)) (int_of_z e.re_loc.rl_index) (int_of_z e.re_loc.rl_line)
+    (int_of_z e.re_loc.rl_col)
+    (jlist (List.map (fun l -> jlist [jstr (hex_of_bytes l.rl_name); string_of_int (int_of_z l.rl_line)]) e.re_trace))
+
+let cpanic_name = function
+  | CPNilCurrentDirective -> "nil-current-directive"
+  | CPEmptyIncludeName -> "empty-include-name"
+  | CPLexemeValue -> "lexeme-value"
+  | CPScanner p -> "scanner:" ^ panic_name p
+  | CPOther w -> "other:" ^ ocaml_string w
+
+let log_json l =
+  jlist (List.map (fun (w, p) -> jlist [jstr (ocaml_string w); jstr (hex_of_bytes p)]) l)
+
+let okind_of s = if s = "J" then OJSchema else OEnum
+
+let cmd_tree () =
+  try
+    while true do
+      let line = input_line stdin in
+      match List.filter (fun s -> s <> "") (String.split_on_char ' ' line) with
+      | [] -> ()
+      | id :: toks ->
+        let fs = ref [] and root = ref [] and ot = ref [] and et = ref [] and fuel = ref 200000 in
+        List.iter (fun t ->
+            match String.split_on_char ':' t with
+            | ["F"; n; c] -> fs := (bytes_of_hex n, FFile (bytes_of_hex c)) :: !fs
+            | ["D"; n] -> fs := (bytes_of_hex n, FDir) :: !fs
+            | ["R"; n] -> root := bytes_of_hex n
+            | ["U"; n] -> fuel := int_of_string n
+            | ["O"; n; k; p; "L"; l] ->
+              ot := (((bytes_of_hex n, okind_of k), z_of_int (int_of_string p)), OLen (z_of_int (int_of_string l))) :: !ot
+            | ["O"; n; k; p; "E"; m; i] ->
+              ot := (((bytes_of_hex n, okind_of k), z_of_int (int_of_string p)),
+                     OLenErr (n_of_int (int_of_string m), z_of_int (int_of_string i))) :: !ot
+            | ["X"; n; b; e; m; i] ->
+              et := (((bytes_of_hex n, z_of_int (int_of_string b)), z_of_int (int_of_string e)),
+                     (n_of_int (int_of_string m), z_of_int (int_of_string i))) :: !et
+            | _ -> failwith ("bad token " ^ t)) toks;
+        let rec nat_of_int i = if i <= 0 then O else S (nat_of_int (i - 1)) in
+        let r = tree_case (List.rev !fs) !root (List.rev !ot) (List.rev !et) (nat_of_int !fuel) in
+        let out = match r with
+          | TScanErr (e, log) -> Printf.sprintf "\"scan\":\"err\",\"err\":%s,\"log\":%s" (rerr_json e) (log_json log)
+          | TScanPanic (p, log) -> Printf.sprintf "\"scan\":\"panic\",\"panic\":%s,\"log\":%s" (jstr (cpanic_name p)) (log_json log)
+          | TFuel -> "\"scan\":\"fuel\""
+          | TScanned (dirs, log, p2) ->
+            let p2s = match p2 with
+              | T2Ok (roots, ms, ex, enums) ->
+                Printf.sprintf "\"p2\":\"ok\",\"roots\":%s,\"macros\":%s,\"expanded\":%s,\"enums\":%s"
+                  (jlist (List.map (fun d -> jstr (rdir_str d)) roots))
+                  (jlist (List.map (fun m -> jstr (hex_of_bytes m)) ms))
+                  (jlist (List.map (fun d -> jstr (rdir_str d)) ex))
+                  (jlist (List.map (fun m -> jstr (hex_of_bytes m)) enums))
+              | T2Err e -> Printf.sprintf "\"p2\":\"err\",\"errs\":[%s]" (rerr_json e)
+              | T2ErrOneOf es -> Printf.sprintf "\"p2\":\"err\",\"errs\":%s" (jlist (List.map rerr_json es))
+              | T2Panic p -> Printf.sprintf "\"p2\":\"panic\",\"panic\":%s" (jstr (cpanic_name p))
+              | T2Fuel -> "\"p2\":\"fuel\"" in
+            Printf.sprintf "\"scan\":\"ok\",\"dirs\":%s,\"log\":%s,%s"
+              (jlist (List.map (fun d -> jstr (rdir_str d)) dirs)) (log_json log) p2s in
+        Printf.printf "{\"id\":%s,%s}\n" (jstr id) out
+    done
+  with End_of_file -> ()
+
 let () =
   match Array.to_list Sys.argv with
   | _ :: "scan" :: _ -> cmd_scan ()
+  | _ :: "tree" :: _ -> cmd_tree ()
   | _ -> prerr_endline "usage: model <scan>"; exit 2
